@@ -154,6 +154,16 @@ func baseMutate(ctx context.Context, table, key []byte, values map[string]map[st
 	if err != nil {
 		return nil, err
 	}
+	// a cell carries the length of its row in 2 bytes and the length of its
+	// family in 1 byte: longer ones would be encoded with a wrong length
+	if len(key) > math.MaxUint16 {
+		return nil, errors.New("row key is longer than 65535 bytes")
+	}
+	for family := range values {
+		if len(family) > math.MaxUint8 {
+			return nil, errors.New("column family is longer than 255 bytes")
+		}
+	}
 	return m, nil
 }
 
